@@ -1,4 +1,5 @@
 import GnoVerif.Proofs.C45Cex
+import GnoVerif.Proofs.C45Loop
 /-!
 # C45 — bech32 addresses round-trip and reject malformed strings
 
@@ -75,6 +76,19 @@ theorem address_sound (s addr : Bytes) (h : addressFromBech32 s = .ok addr) :
 example : ∃ s addr, addressFromBech32 s = .ok addr :=
   let ⟨s, _, h⟩ := address_roundtrip' (List.replicate 20 7) (by decide)
   ⟨s, _, h⟩
+
+/-! ## 1b. the bit-regrouping model is the Go loop -/
+
+/-- `convertBits` (the bit-list specification every theorem here is about) and `convertBitsGo`
+(the line-by-line transcription of btcutil's `ConvertBits` loop, which extracts
+`min(remFromBits, remToBits)` bits per inner iteration on 8-bit registers) agree on byte inputs, for
+every `fromBits`, `toBits` — including the invalid ones — and both `pad` values. -/
+theorem convertBits_is_go_loop (fromBits toBits : Nat) (pad : Bool) (data : List Nat)
+    (hd : ∀ x ∈ data, x < 256) :
+    convertBitsGo fromBits toBits pad data = convertBits fromBits toBits pad data :=
+  convertBitsGo_eq fromBits toBits pad data hd
+
+example : ∀ x ∈ ([0, 1, 127, 128, 255] : List Nat), x < 256 := by decide
 
 /-! ## 2. rejection (the decoder is total; `Rejected s` = it returns an error) -/
 
